@@ -15,7 +15,7 @@
    mention header slots, and every pop of the machine stays above F (the machine crashes with
    Underflow otherwise), so they survive every step.  No axioms. *)
 From Coq Require Import List Arith Bool Lia.
-From NV Require Import Gen.Opcodes Verifier.Shape Verifier.Effect Verifier.Verify.
+From NV Require Import Gen.Opcodes Verifier.Shape Verifier.Effect Verifier.Verify Verifier.VerifySound.
 Import ListNotations.
 
 (* ------------------------------------------------------------------ lists *)
@@ -429,3 +429,269 @@ Proof.
 Qed.
 
 End Machine.
+
+(* ------------------------------------------------------------------ the frame-size bound M *)
+
+Definition cert_depth (metas : list fmeta) (c : acert) : nat :=
+  match c with CNorm f d _ => base metas f + d | _ => 0 end.
+
+(* the largest certified frame size (frame base + depth) of the module: what
+   build/ocaml/verifier/run prints per function as MAXDEPTH, maximised over the functions *)
+Definition maxdepth (metas : list fmeta) (certs : list acert) : nat :=
+  fold_right Nat.max 0 (map (cert_depth metas) certs).
+
+Lemma fold_max_ge l x : In x l -> x <= fold_right Nat.max 0 l.
+Proof.
+  induction l as [|y l IH]; intros H; [destruct H|]. cbn [fold_right].
+  destruct H as [->|H]; [lia|]. specialize (IH H). lia.
+Qed.
+
+Lemma maxdepth_ge metas certs a f d os :
+  cert certs a = CNorm f d os -> base metas f + d <= maxdepth metas certs.
+Proof.
+  unfold cert. intros H. destruct (Nat.lt_ge_cases a (length certs)) as [Hl|Hl].
+  - apply fold_max_ge. apply in_map_iff. exists (nth a certs CNone). split.
+    + rewrite H. reflexivity.
+    + apply nth_In. exact Hl.
+  - rewrite nth_overflow in H by exact Hl. discriminate.
+Qed.
+
+Ltac bsplit := repeat match goal with
+  | H : _ && _ = true |- _ => apply andb_true_iff in H; destruct H
+  end.
+
+Lemma tc_avail_le d os : avail d os <= d.
+Proof. destruct os; cbn; lia. Qed.
+
+Lemma tc_find_meta_in : forall l g m, find_meta l g = Some m -> In m l /\ m_addr m = g.
+Proof.
+  induction l as [|x l IH]; intros g m H; cbn in H; [discriminate|].
+  destruct (m_addr x =? g) eqn:E.
+  - injection H as <-. apply Nat.eqb_eq in E. split; [now left|exact E].
+  - destruct (IH _ _ H). split; [now right|assumption].
+Qed.
+
+(* ------------------------------------------------------------------ from the statement of C07 *)
+
+Section FromC07.
+
+(* exactly the statement of Properties_C07.verify_depth *)
+Hypothesis verify_depth_stmt :
+  forall prog exct metas entry certs,
+    check_all prog exct metas entry certs = true ->
+    forall obs s,
+      run (code prog) (handler exct) (np metas) (is_entry metas) entry init obs = Next s ->
+      match cert certs (ip s) with
+      | CNorm f d os => cur s = f /\ length (stk s) = P s + base metas f + d
+      | CExc f => cur s = f /\ P s + base metas f <= length (stk s)
+      | CNone => False
+      end.
+
+Section Module.
+Variable prog : list rinstr.
+Variable exct : list (nat * nat).
+Variable metas : list fmeta.
+Variable entry : nat.
+Variable certs : list acert.
+Hypothesis CHK : check_all prog exct metas entry certs = true.
+
+Local Notation cert := (Verify.cert certs).
+Local Notation code := (Verify.code prog).
+Local Notation np := (Verify.np metas).
+Local Notation base := (Verify.base metas).
+Local Notation is_entry := (Verify.is_entry metas).
+Local Notation handler := (Verify.handler exct).
+Local Notation stepm := (Shape.step code handler np is_entry entry).
+Local Notation runm := (Shape.run code handler np is_entry entry).
+Local Notation M := (maxdepth metas certs).
+Local Notation SInvm := (SInv M).
+Local Notation boundedm := (bounded M).
+Local Notation tally := (tally_step code is_entry).
+Local Notation opens := (open_calls code handler np is_entry entry).
+
+Definition Reach (s : st) : Prop := exists obs, runm init obs = Next s.
+
+Lemma reach_init : Reach init.
+Proof. exists []. reflexivity. Qed.
+
+Lemma reach_step s ip' len' s' : Reach s -> stepm s ip' len' = Next s' -> Reach s'.
+Proof.
+  intros [obs H] Hs. exists (obs ++ [(ip', len')]). rewrite run_app, H. cbn [run]. now rewrite Hs.
+Qed.
+
+Lemma reach_cert s : Reach s ->
+  match cert (ip s) with
+  | CNorm f d os => cur s = f /\ length (stk s) = P s + base f + d
+  | CExc f => cur s = f /\ P s + base f <= length (stk s)
+  | CNone => False
+  end.
+Proof. intros [obs H]. exact (verify_depth_stmt _ _ _ _ _ CHK obs s H). Qed.
+
+Lemma chk_at a : cert a <> CNone -> check_at prog exct metas entry certs a = true.
+Proof.
+  intros H. unfold check_all in CHK. bsplit.
+  match goal with H : forallb _ (seq 0 (length prog)) = true |- _ =>
+    rewrite forallb_forall in H; apply H end.
+  apply in_seq. split; [lia|]. cbn.
+  match goal with H : (length certs =? length prog) = true |- _ => apply Nat.eqb_eq in H; rewrite <- H end.
+  destruct (Nat.lt_ge_cases a (length certs)) as [Hl|Hl]; auto.
+  exfalso. apply H. unfold Verify.cert. now apply nth_overflow.
+Qed.
+
+Lemma entry_cert g : is_entry g = true -> exists d, cert g = CNorm g d [].
+Proof.
+  unfold Verify.is_entry. destruct (find_meta metas g) as [m|] eqn:E; [|discriminate]. intros _.
+  destruct (tc_find_meta_in _ _ _ E) as [Hin Ha].
+  unfold check_all in CHK. bsplit.
+  match goal with H : forallb _ metas = true |- _ => rewrite forallb_forall in H; specialize (H m Hin) end.
+  unfold check_meta in *. bsplit. rewrite Ha in *.
+  match goal with H : entry_cert_ok _ _ _ = true |- _ => unfold entry_cert_ok in H end.
+  destruct (cert g) as [|g' d os|]; try discriminate. bsplit.
+  match goal with H : (g =? g') = true |- _ => apply Nat.eqb_eq in H; subst g' end.
+  destruct os; [|discriminate]. eauto.
+Qed.
+
+Lemma cert_step s k ip' len' s' :
+  Reach s -> SInvm s k -> boundedm s -> stepm s ip' len' = Next s' ->
+  SInvm s' (tally k s ip' len') /\ boundedm s'.
+Proof.
+  intros R I B H.
+  destruct (machine_step code handler np is_entry entry M s k ip' len' s' I B H) as [I' [B'|G]]; [auto|].
+  split; [exact I'|].
+  pose proof (reach_cert s' (reach_step _ _ _ _ R H)) as C'.
+  destruct (cert (ip s')) as [|f' d' os'|f'] eqn:Ec'; [destruct C'| |].
+  { (* the new state is at a normal certificate: its depth is static *)
+    destruct C' as [_ L]. unfold bounded. rewrite L.
+    pose proof (maxdepth_ge metas certs _ _ _ _ Ec'). lia. }
+  (* the new state is at a handler entry: the step did not grow the stack *)
+  pose proof (reach_cert s R) as C.
+  assert (K : check_at prog exct metas entry certs (ip s) = true).
+  { apply chk_at. intros E. rewrite E in C. exact C. }
+  unfold check_at in K. unfold bounded in *.
+  destruct G as [(reads & pops & pushes & Hc & Hip & HP & Hpl & HL)|[(r & Hc & Hip)|[(Hc & Hip & HP & HL)|[(r & Hc & Hip)|He]]]].
+  - rewrite Hc in K. destruct (cert (ip s)) as [|f d os|f] eqn:Ec; [destruct C| |].
+    + unfold check_norm in K. bsplit.
+      match goal with H : succ_ok _ _ _ _ _ = true |- _ => unfold succ_ok in H; rewrite <- Hip, Ec' in H end.
+      bsplit.
+      match goal with H : (_ - _ + _ =? 0) = true |- _ => apply Nat.eqb_eq in H end.
+      rewrite HP, HL. lia.
+    + unfold check_exc in K. destruct reads; [|discriminate]. destruct pops; [|discriminate].
+      destruct pushes; [|discriminate]. rewrite HP, HL. lia.
+  - rewrite Hc in K. destruct (cert (ip s)) as [|f d os|f] eqn:Ec; [destruct C| |].
+    + unfold check_norm in K. bsplit.
+      match goal with H : succ_ok _ _ _ _ (_ :: _) = true |- _ => unfold succ_ok in H; rewrite <- Hip, Ec' in H end.
+      bsplit.
+      match goal with H : (_ + 5 =? 0) = true |- _ => apply Nat.eqb_eq in H; lia end.
+    + discriminate K.
+  - rewrite Hc in K. destruct (cert (ip s)) as [|f d os|f] eqn:Ec; [destruct C| |].
+    + unfold check_norm in K. bsplit.
+      match goal with H : succ_ok _ _ _ _ _ = true |- _ => unfold succ_ok in H; rewrite <- Hip, Ec' in H end.
+      bsplit.
+      match goal with H : (_ + _ =? 0) = true |- _ => apply Nat.eqb_eq in H end.
+      rewrite HP, HL. lia.
+    + discriminate K.
+  - rewrite Hc in K. destruct (cert (ip s)) as [|f d os|f] eqn:Ec; [destruct C| |].
+    + unfold check_norm in K. bsplit. rewrite <- Hip, Ec' in *. discriminate.
+    + discriminate K.
+  - destruct (entry_cert _ He) as [d Hd]. rewrite Hd in Ec'. discriminate.
+Qed.
+
+Lemma run_inv : forall obs s k s',
+  Reach s -> SInvm s k -> boundedm s -> runm s obs = Next s' ->
+  SInvm s' (opens s k obs) /\ boundedm s'.
+Proof.
+  induction obs as [|[ip' len'] rest IH]; intros s k s' R I B H; cbn [run open_calls] in *.
+  - injection H as <-. auto.
+  - destruct (stepm s ip' len') as [s1| | | |] eqn:Hs; try discriminate.
+    destruct (cert_step _ _ _ _ _ R I B Hs) as [I1 B1].
+    eapply IH; eauto. eapply reach_step; eauto.
+Qed.
+
+Lemma bound_open obs s :
+  runm init obs = Next s ->
+  length (stk s) <= P s + M /\ P s <= M * opens init 0 obs.
+Proof.
+  intros H.
+  destruct (run_inv obs init 0 s reach_init (SInv_init M)) as [I B]; auto.
+  { unfold bounded. cbn. lia. }
+  split; [exact B|]. eapply chain_bound. exact (inv_chain _ _ _ I).
+Qed.
+
+End Module.
+End FromC07.
+
+(* ------------------------------------------------------------------ the theorems of C13 (VM side)
+   instantiated with VerifySound.verify_depth: no hypothesis left *)
+
+(* A CALL taken with F = P (no MARK open: the SLIDE;CALL of a self tail call) keeps P and F,
+   pushes no header, and leaves above P exactly the callee's parameters; the suspended
+   frames below P are untouched. *)
+Theorem tail_call_keeps_frame :
+  forall code handler np is_entry entry s ip' len' s',
+    Shape.step code handler np is_entry entry s ip' len' = Next s' ->
+    tail_transfer code is_entry s ip' len' = true ->
+    P s' = P s /\ F s' = F s /\ length (stk s') = P s + np ip' /\
+    ip s' = ip' /\ cur s' = ip' /\
+    stk s' = firstn (P s + np ip') (stk s) /\ firstn (P s) (stk s') = firstn (P s) (stk s).
+Proof. exact tail_call_keeps_frame_m. Qed.
+
+(* In an accepted module, along every observation sequence: the running frame is never larger
+   than M = maxdepth, and the frame base is at most M times the number of non-tail calls that
+   are currently open (taken and not yet returned from).  Tail transfers do not count. *)
+Theorem stack_bounded_by_open_calls :
+  forall prog exct metas entry certs,
+    check_all prog exct metas entry certs = true ->
+    forall obs s,
+      run (code prog) (handler exct) (np metas) (is_entry metas) entry init obs = Next s ->
+      length (stk s) <= P s + maxdepth metas certs /\
+      P s <= maxdepth metas certs *
+             open_calls (code prog) (handler exct) (np metas) (is_entry metas) entry init 0 obs.
+Proof.
+  intros prog exct metas entry certs CHK obs s H.
+  exact (bound_open VerifySound.verify_depth prog exct metas entry certs CHK obs s H).
+Qed.
+
+(* ... a fortiori by the number of non-tail calls taken so far in the run *)
+Theorem stack_bounded_by_nontail_calls :
+  forall prog exct metas entry certs,
+    check_all prog exct metas entry certs = true ->
+    forall obs s,
+      run (code prog) (handler exct) (np metas) (is_entry metas) entry init obs = Next s ->
+      length (stk s) <= P s + maxdepth metas certs /\
+      P s <= (maxdepth metas certs + 5) *
+             nontail_calls (code prog) (handler exct) (np metas) (is_entry metas) entry init obs.
+Proof.
+  intros prog exct metas entry certs CHK obs s H.
+  destruct (stack_bounded_by_open_calls _ _ _ _ _ CHK obs s H) as [H1 H2]. split; [exact H1|].
+  pose proof (open_le_taken (code prog) (handler exct) (np metas) (is_entry metas) entry obs init 0) as L.
+  cbn [plus] in L. nia.
+Qed.
+
+(* The peak stack of a run depends on its non-tail calls only: with at most k of them and ANY
+   number of tail transfers (`tail_transfers ... obs` is unconstrained) the stack never
+   exceeds (k+1)*(M+5) slots. *)
+Theorem tail_call_constant_stack :
+  forall prog exct metas entry certs,
+    check_all prog exct metas entry certs = true ->
+    forall obs s k,
+      run (code prog) (handler exct) (np metas) (is_entry metas) entry init obs = Next s ->
+      nontail_calls (code prog) (handler exct) (np metas) (is_entry metas) entry init obs <= k ->
+      length (stk s) <= (k + 1) * (maxdepth metas certs + 5).
+Proof.
+  intros prog exct metas entry certs CHK obs s k H Hk.
+  destruct (stack_bounded_by_nontail_calls _ _ _ _ _ CHK obs s H) as [H1 H2]. nia.
+Qed.
+
+(* the sharper form: (open calls + 1) frames of at most M slots *)
+Theorem tail_call_constant_stack_open :
+  forall prog exct metas entry certs,
+    check_all prog exct metas entry certs = true ->
+    forall obs s,
+      run (code prog) (handler exct) (np metas) (is_entry metas) entry init obs = Next s ->
+      length (stk s) <=
+      (open_calls (code prog) (handler exct) (np metas) (is_entry metas) entry init 0 obs + 1) *
+      maxdepth metas certs.
+Proof.
+  intros prog exct metas entry certs CHK obs s H.
+  destruct (stack_bounded_by_open_calls _ _ _ _ _ CHK obs s H) as [H1 H2]. nia.
+Qed.
